@@ -223,9 +223,12 @@ def composite_file(tr, status):
                 pass
             for st in m[1].body:
                 for node in ast.walk(st):
-                    if isinstance(node, ast.Call) and isinstance(node.func, ast.Attribute) and node.func.attr == meth \
-                            and isinstance(node.func.value, ast.Attribute) and node.func.value.attr in names:
-                        order.append((node.lineno, node.col_offset, names[node.func.value.attr]))
+                    # the stage method, called directly or handed (as a bound method) to a helper of the class that applies it
+                    # to the masked columns; what such a helper does is covered by the search, not by this extraction
+                    if isinstance(node, ast.Attribute) and node.attr == meth \
+                            and isinstance(node.value, ast.Attribute) and node.value.attr in names \
+                            and isinstance(node.value.value, ast.Name) and node.value.value.id == "self":
+                        order.append((node.lineno, node.col_offset, names[node.value.attr]))
                     if isinstance(node, ast.AugAssign) and isinstance(node.target, ast.Name) and node.target.id == "log_abs_det_jacobian":
                         accum.append(isinstance(node.op, ast.Add))
             order = [n for _, _, n in sorted(order)]
